@@ -31,6 +31,7 @@ EXPLANATION = (
 EXPLANATION += ' Added after the seeded-change rounds: ' + 'D4 also: task_arena_impl::execute notifies the exit monitor on every path from prepare_wait to the function exit unless a slot was occupied; D5 also: the bounded-queue wake-up predicate is downward closed (ticket <= notified ticket).'
 EXPLANATION += ' Added in the third session (round-3 seeds and the findings they led to): ' + "D1 also: every scan of a monitor's wait set steps in the direction of its start (front/next, last/prev); D4 also: a bounded-queue consumer announces every claimed head ticket to the producers before it claims another one (invalid entries included, path-sensitive) and also when moving the item out throws; D7 also: the serializer's pending-request word holds base + delta for every value of the delta parameter and is examined in full width."
 EXPLANATION += ' Added in the fourth round of seeded changes: ' + 'D7 also: with a worker soft limit of 0 the grant of the mandatory worker in market::update_allotment does not depend (backward slice) on a per-priority-level quantity.'
+EXPLANATION += ' Added later in the fourth round: ' + 'D2 also: every condition that can end a wait loop through commit_wait is evaluated again between prepare_wait and commit_wait (the exit conditions are identified by the calls they test, looking through local variables).'
 ASSUMPTIONS = ['C++11 memory model; only seq_cst fences / seq_cst RMWs order a store before a later load',
                'futex / OS semaphore below the P/V interface are trusted', 'Linux configuration (__TBB_USE_FUTEX) is analysed']
 ND = ['eventual execution (liveness) itself', 'fairness of the OS semaphore/futex', 'thread_monitor internals below P/V']
